@@ -1,5 +1,5 @@
 # replay of a bounded stand-in violation (C04): re-run native/c04_reorder.py
 import sys
-print("optimize [Thermal(0.5), Squeezed(0.3)]: the optimised program ['Thermal(0.5) | (q[0])'] prepares a different state (moments [0.0, 2.0, 0.0, 2.0, 0.0, 2.0, 0.5, 0.75] vs [0.0, 0.5991, 0.0, 1.0773, 0.0, 1.7719, 0.0927, 0.2027])")
+print('gbs compile [mode 1 deleted, mode 3 created, modes 3,0 measured] raised IndexError: tuple index out of range')
 print('REPLAY-VIOLATION')
 sys.exit(1)
